@@ -29,7 +29,7 @@ def snapshot():
 # (a full 20-check run costs about 70 core-minutes per change: every witness TU is recompiled for the changed headers)
 RELATED = {
     "C01": "C01,C06,C09,C10,C16,C18,C02", "C02": "C02,C05,C07,C09,C10,C18", "C03": "C03,C04,C05,C02", "C04": "C04,C01,C03,C05,C09,C11,C18,C02",
-    "C05": "C05,C01,C02,C03", "C06": "C06,C01,C09,C17", "C07": "C07,C09,C12,C16", "C08": "C08,C07,C09,C16", "C09": "C09,C02,C06,C18",
+    "C05": "C05,C01,C02,C03", "C06": "C06,C01,C09,C17", "C07": "C07,C09,C12,C16,C17", "C08": "C08,C07,C09,C16", "C09": "C09,C02,C06,C18",
     "C10": "C10,C01,C02,C07,C16,C18", "C11": "C11,C04,C20", "C12": "C12,C07,C08", "C13": "C13,C14", "C14": "C14,C13", "C15": "C15,C02",
     "C16": "C16,C07,C10", "C17": "C17,C06,C07", "C18": "C18,C01,C02,C09,C10", "C19": "C19,C08,C09,C13", "C20": "C20,C11",
 }
